@@ -126,6 +126,22 @@ def twin_records(ctx, rng):
             b, exb = run_twin(sched, (t, 1, empty, "a2", mc))
             recs.append({"a": a, "b": b, "exc": exa + exb, "cls": "unicast_flag_clear", "sched": sched, "extra": [t, 1, list(full), "a2", mc]})
             continue
+        if n % 6 == 4:      # the previous, valid message of that sender repeated with the unicast flag clear: still to be ignored
+            t = rng.randint(0, sched[-1]["t"])
+            es = rng.choice([[{"ty": "sub", "svc": "s1", "eg": 1, "ctr": 3, "eps": ["e1"], "ttl": 5, "opts": []}],
+                             [{"ty": "find", "svc": "f1", "ttl": 3, "opts": []}],
+                             [{"ty": "offer", "svc": "s2", "ttl": 1, "opts": []}, {"ty": "find", "svc": "f1", "ttl": 3, "opts": []}]])
+            mc = rng.random() < 0.3
+            sid = 800 + n
+            first = {"t": t, "j": 0, "op": "rx", "src": "a2", "mc": mc, "sid": sid, "rb": True, "uc": True, "es": es}
+            gap = rng.choice([0, 0, 1, 2])
+            again = sdenv.build_sd(es, True, sid + 1, uc=False)
+            empty = sdenv.build_sd([], True, sid + 1, uc=False)
+            sched2 = sorted(sched + [first], key=lambda i: (i["t"], i.get("j", 0)))
+            a, exa = run_twin(sched2, (t + gap, 3, again, "a2", mc))
+            b, exb = run_twin(sched2, (t + gap, 3, empty, "a2", mc))
+            recs.append({"a": a, "b": b, "exc": exa + exb, "cls": "unicast_flag_clear_repeat", "sched": sched2, "extra": [t + gap, 3, list(again), "a2", mc]})
+            continue
         data, cls = bad_datagram(rng)
         t = rng.randint(0, sched[-1]["t"])
         j = rng.choice([0, 1])
